@@ -27,7 +27,9 @@ theorem shouldBuild_spec (hR : 0 < R) (cx : Ctx) (hRid : cx.runid = R) (hredo : 
     ((shouldBuild cx fuel t w).1 = none → (shouldBuild cx fuel t w).2 = w) ∧
     ((shouldBuild cx fuel t w).1 = some .clean → Settled R cyc (shouldBuild cx fuel t w).2 t) ∧
     (∀ dr, (shouldBuild cx fuel t w).1 = some dr → dr ≠ .clean → dr ≠ .cyclic →
-      Open R (shouldBuild cx fuel t w).2 t ∧ (w.recs t).isOverride = false ∧ isCheckedR (w.recs t) R = false) := by
+      Open R (shouldBuild cx fuel t w).2 t ∧
+      ((w.recs t).isOverride = true → existsF (shouldBuild cx fuel t w).2 t = true → (w.recs t).isGenerated = true) ∧
+      isCheckedR (w.recs t) R = false) := by
   unfold shouldBuild
   simp only [hredo, Bool.false_eq_true, if_false, hRid]
   cases hfl : isFailedR (getRec w R t) R with
@@ -42,7 +44,8 @@ theorem shouldBuild_spec (hR : 0 < R) (cx : Ctx) (hRid : cx.runid = R) (hredo : 
     obtain ⟨dr, w1, c1⟩ := res
     have hinv1 : RInv R cyc w1 := hinv.ofDStep hs.step hs.inv
     have hbad : dr ≠ .clean → dr ≠ .cyclic →
-        Open R w1 t ∧ (w.recs t).isOverride = false ∧ isCheckedR (w.recs t) R = false := by
+        Open R w1 t ∧ ((w.recs t).isOverride = true → existsF w1 t = true → (w.recs t).isGenerated = true) ∧
+        isCheckedR (w.recs t) R = false := by
       intro h1 h2
       have hnV := hs.bad ht hchR h1 h2
       have hop : Open R w1 t := ⟨hnV, by rw [hs.step.failedR]; exact hfl⟩
@@ -52,13 +55,13 @@ theorem shouldBuild_spec (hR : 0 < R) (cx : Ctx) (hRid : cx.runid = R) (hredo : 
         · exact h1 h
         · exact h2 h
       refine ⟨hop, ?_, ?_⟩
-      · -- an overridden file in step with its record is verified
-        cases hov : (w.recs t).isOverride with
-        | false => rfl
-        | true =>
-          exfalso
-          have h1' : (getRec w R t).isOverride = true := by rw [getRec_isOverride]; exact hov
-          obtain ⟨o1, o2⟩ := hinv.d.ov t h1'
+      · -- an overridden file in step with its record is verified: this one is out of step, so still generated
+        intro hov hex1
+        have hex0 : existsF w t = true := by rw [← existsF_congr t hs.step.same.1]; exact hex1
+        have h1' : (getRec w R t).isOverride = true := by rw [getRec_isOverride]; exact hov
+        rcases hinv.d.ov t h1' hex0 with hfr | ⟨o1, o2 | o2⟩
+        · rw [hfl] at hfr; cases hfr
+        · exfalso
           obtain ⟨c, hc⟩ := getRec_fields w R t
           have hwf := WFrec.getRec hinv.d.wf t
           apply hnS
@@ -68,6 +71,7 @@ theorem shouldBuild_spec (hR : 0 < R) (cx : Ctx) (hRid : cx.runid = R) (hredo : 
             have := (hwf.2.2.2 hcc).1
             rw [o2] at this; cases this
           | some c' => exact ⟨c', rfl, hwf.1 c' hcc, .inr ⟨o2, .inr (.inl h1')⟩⟩
+        · rw [getRec_isGenerated] at o2; exact o2
       · cases hck : isCheckedR (w.recs t) R with
         | false => rfl
         | true =>
@@ -136,7 +140,7 @@ theorem buildJob_spec (hR : 0 < R) {E : Engine} (hE : ESpec R E) (d : Defects) (
       BJPost R cyc cx.parent t w (.done (startSelf E d cx t (w.recs t) w1).1, (startSelf E d cx t (w.recs t) w1).2) := by
     intro dr e h1 h2
     obtain ⟨a1, a2, a3⟩ := s5 dr (by rw [e]) h1 h2
-    exact BJPost.ofJob s2 (startSelf_spec hR hE d cx hRid hcr hcyc ht (w.recs t) (hinv.d.wf t) a2 a3 w1 s1 a1)
+    exact BJPost.ofJob s2 (startSelf_spec hR hE d cx hRid hcr hcyc ht (w.recs t) (hinv.d.wf t) w1 a2 a3 s1 a1)
   cases o with
   | none =>
     dsimp only
